@@ -19,6 +19,8 @@
 //   gate;   item bodies block on a gate opened only after every client thread has
 //           returned from all of its submissions (async must never wait for an item)
 //   cold;   no warm-up: the first push to each queue and the pool start-up are explored
+//   hold;   bodies of synchronously executed items (s, B, w of the one thread that issues them) stay in flight until every
+//           other client thread has returned from all its submissions ("reader inside, barrier arriving" without a preemption)
 //   slow;   item bodies block for 1 virtual ms between START and END (a block is a free context
 //           switch, so the maximal overlap the library allows shows up without any preemption)
 #ifndef QPROG_H
@@ -33,7 +35,7 @@ typedef struct { char kind; int target; } qp_qdef;
 typedef struct { char op; int q; } qp_op;
 typedef struct {
 	const char *text;
-	int gate, cold, slow;
+	int gate, cold, slow, hold;
 	int nq; qp_qdef q[QP_MAXQ];
 	int nthr; int nops[QP_MAXT]; qp_op ops[QP_MAXT][QP_MAXOPS];
 } qprog;
